@@ -16,7 +16,6 @@ import (
 	"bytes"
 	"flag"
 	"fmt"
-	"math/rand"
 	"os"
 
 	"github.com/janelia-flyem/dvid/datatype/common/labels"
@@ -28,20 +27,9 @@ import (
 
 var (
 	only    = flag.Int("only", -1, "run only the case with this index (replay)")
+	workers = flag.Int("workers", 0, "worker goroutines (default 4 quick, 8 thorough)")
 	p       *probe.P
-	emitted = map[string]bool{}
 )
-
-func violation(key, what string, w map[string]interface{}) {
-	p.Count("violations_seen", 1)
-	if emitted[key] {
-		p.Count("violations_suppressed_same_key", 1)
-		return
-	}
-	emitted[key] = true
-	w["flavour"] = p.Flavour
-	p.Violation(key, what, w)
-}
 
 // encodeErrKey classifies a refusal to encode a legal array.  Blocks whose number of sub-blocks is odd
 // (all three edges = 8 mod 16, e.g. 24x24x24) put the uint32 index table at an offset = 2 mod 4.
@@ -51,8 +39,6 @@ func encodeErrKey(size [3]int) string {
 	}
 	return "encode:error"
 }
-
-func subRand(idx int) *rand.Rand { return rand.New(rand.NewSource(p.Seed*1000003 + int64(idx)*7919 + 17)) }
 
 func widthClass(maxSB int) string {
 	bits := 0
@@ -77,17 +63,9 @@ func main() {
 	if p.Flavour != "" {
 		nBlk, nStream, nSub = p.N(130, 6000), p.N(20, 600), p.N(6, 100)
 	}
-	idx := 0
-	run := func(name string, f func(i int, r *rand.Rand)) {
-		if *only < 0 || *only == idx {
-			f(idx, subRand(idx))
-		}
-		idx++
-	}
+	var cases []func(c *lg.Case)
 
 	// ---- blk: all (size x kind) pairs in thorough, a seed-rotated diagonal through them in quick
-	prev := map[[3]int][]uint64{}
-	prevBlk := map[[3]int]*labels.Block{}
 	rot := int(p.Seed % 1000)
 	for i := 0; i < nBlk; i++ {
 		var size [3]int
@@ -98,27 +76,36 @@ func main() {
 			size = sizes[(i*7+rot)%len(sizes)]
 			kind = kinds[(i+i/len(kinds)+rot)%len(kinds)]
 		}
-		run("blk", func(ci int, r *rand.Rand) { blockCase(ci, r, size, kind, prev, prevBlk) })
+		cases = append(cases, func(c *lg.Case) { blockCase(c, size, kind) })
 	}
 	// ---- stream
 	for i := 0; i < nStream; i++ {
+		i := i
 		size := sizes[(i*5+rot)%len(sizes)]
-		run("stream", func(ci int, r *rand.Rand) { streamCase(ci, r, size, i) })
+		cases = append(cases, func(c *lg.Case) { streamCase(c, size, i) })
 	}
 	// ---- subvol
 	for i := 0; i < nSub; i++ {
 		size := sizes[(i*11+rot)%len(sizes)]
-		run("subvol", func(ci int, r *rand.Rand) { subvolCase(ci, r, size) })
+		cases = append(cases, func(c *lg.Case) { subvolCase(c, size) })
 	}
+	nw := *workers
+	if nw <= 0 {
+		nw = p.N(4, 8)
+	}
+	rn := &lg.Runner{P: p, Workers: nw, Only: *only}
+	rn.Run(cases)
 	p.Done()
 }
 
-func blockCase(ci int, r *rand.Rand, size [3]int, kind string, prev map[[3]int][]uint64, prevBlk map[[3]int]*labels.Block) {
+func blockCase(c *lg.Case, size [3]int, kind string) {
+	ci, r := c.CI, c.R
+	violation := c.Violation
 	g := lg.Gen(r, size, kind)
 	desc := fmt.Sprintf("case=%d blk size=%s kind=%s labels=%d maxSB=%d hash=%s", ci, lg.SizeStr(size), kind, g.NLabels, g.MaxSB, g.Hash())
-	p.Begin(desc)
+	c.Begin(desc)
 	wit := func() map[string]interface{} {
-		return map[string]interface{}{"case": ci, "type": "blk", "size": size, "kind": kind, "distinct_labels": g.NLabels, "max_labels_per_subblock": g.MaxSB, "array_hash": g.Hash(), "seed": p.Seed}
+		return map[string]interface{}{"type": "blk", "size": size, "kind": kind, "distinct_labels": g.NLabels, "max_labels_per_subblock": g.MaxSB, "array_hash": g.Hash()}
 	}
 	p.Case("blk|"+lg.SizeStr(size)+"|"+kind+"|"+g.Hash(), g.NLabels >= 2)
 	p.Seen("sizes", lg.SizeStr(size))
@@ -127,7 +114,7 @@ func blockCase(ci int, r *rand.Rand, size [3]int, kind string, prev map[[3]int][
 	p.Seen("size_x_kind", lg.SizeStr(size)+"/"+kind)
 	p.Count("blocks", 1)
 	p.Count("voxels_compressed", g.NVox())
-	if ci < 4 || (kind == "k=512" && ci < 200) {
+	if ci < 2 && p.Flavour == "" {
 		p.Sample(map[string]interface{}{"type": "blk", "size": lg.SizeStr(size), "kind": kind, "distinct_labels": g.NLabels, "max_labels_per_subblock": g.MaxSB})
 	}
 
@@ -158,10 +145,23 @@ func blockCase(ci int, r *rand.Rand, size [3]int, kind string, prev map[[3]int][
 		p.Count("blocks_with_every_voxel_compared", 1)
 	}
 
-	// CalcNumLabels against the previous block of this size
-	if pa := prev[size]; pa != nil {
+	// CalcNumLabels against a previous block of this size: a variation of the array or an unrelated block
+	if ci%2 == 0 {
+		var pa []uint64
+		if r.Intn(2) == 0 {
+			pa = lg.Gen(r, size, []string{"solid", "zero", "shared", "k=3", "runs", "mix"}[r.Intn(6)]).A
+		} else {
+			pa = append([]uint64{}, g.A...)
+			for k, n := 0, 1+r.Intn(600); k < n; k++ {
+				pa[r.Intn(len(pa))] = g.A[r.Intn(len(g.A))]
+			}
+		}
+		pb, perr := lg.MakeBlock(pa, size)
+		if perr != nil {
+			return
+		}
 		if pn := lg.Try(func() {
-			if d := lg.CmpCountDelta(b.CalcNumLabels(prevBlk[size]), g.A, pa); d != "" {
+			if d := lg.CmpCountDelta(b.CalcNumLabels(pb), g.A, pa); d != "" {
 				violation("calcnumlabels-delta:fresh", "CalcNumLabels(prev): "+d+" | "+desc, wit())
 			}
 		}); pn != "" {
@@ -169,7 +169,6 @@ func blockCase(ci int, r *rand.Rand, size [3]int, kind string, prev map[[3]int][
 		}
 		p.Count("count_deltas_checked", 1)
 	}
-	prev[size], prevBlk[size] = g.A, b
 
 	// CompressGZIP is the gzip of the serialization
 	if ci%5 == 0 {
@@ -200,7 +199,9 @@ func blockCase(ci int, r *rand.Rand, size [3]int, kind string, prev map[[3]int][
 }
 
 // streamCase: several positioned blocks through the sparse-volume writers.
-func streamCase(ci int, r *rand.Rand, size [3]int, i int) {
+func streamCase(c *lg.Case, size [3]int, i int) {
+	ci, r := c.CI, c.R
+	violation := c.Violation
 	if size[0]*size[1]*size[2] > 64*64*32 && p.Flavour != "" {
 		size = [3]int{size[0], 32, 16}
 	}
@@ -229,11 +230,15 @@ func streamCase(ci int, r *rand.Rand, size [3]int, i int) {
 	var pbs []lg.PB
 	kindsHere := []string{"runs", "shared", "solid", "halves", "k=3", "mixzero", "twosplit", "k=17"}
 	desc := fmt.Sprintf("case=%d stream size=%s variant=%s", ci, lg.SizeStr(size), variant)
-	for bi, c := range coordsList {
+	for bi, co := range coordsList {
 		kind := kindsHere[r.Intn(len(kindsHere))]
 		g := lg.Gen(r, size, kind)
 		// paint shared labels over parts of the block, touching the x borders
-		switch r.Intn(4) {
+		paint := r.Intn(4)
+		if variant == "clip" && i%10 < 5 {
+			paint = 3
+		}
+		switch paint {
 		case 3: // whole sub-blocks of a shared label (single-label sub-blocks inside a multi-label block)
 			for sb := 0; sb < len(g.A)/512; sb++ {
 				if r.Intn(2) == 0 {
@@ -267,14 +272,14 @@ func streamCase(ci int, r *rand.Rand, size [3]int, i int) {
 		}
 		b, err := lg.MakeBlock(g.A, size)
 		if err != nil {
-			violation(encodeErrKey(size), fmt.Sprintf("MakeBlock refused a legal array (%s): %v", desc, err), map[string]interface{}{"case": ci, "seed": p.Seed, "size": size})
+			violation(encodeErrKey(size), fmt.Sprintf("MakeBlock refused a legal array (%s): %v", desc, err), map[string]interface{}{"size": size})
 			p.Count("blocks_refused_by_encoder", 1)
 			return
 		}
-		pbs = append(pbs, lg.PB{Coord: c, A: g.A, B: b})
-		desc += fmt.Sprintf(" %s@(%d,%d,%d)#%s", kind, c[0], c[1], c[2], lg.HashArr(size, g.A)[:8])
+		pbs = append(pbs, lg.PB{Coord: co, A: g.A, B: b})
+		desc += fmt.Sprintf(" %s@(%d,%d,%d)#%s", kind, co[0], co[1], co[2], lg.HashArr(size, g.A)[:8])
 	}
-	p.Begin(desc)
+	c.Begin(desc)
 	lbls := []uint64{shared[0]}
 	if r.Intn(2) == 0 {
 		lbls = append(lbls, shared[1])
@@ -295,6 +300,12 @@ func streamCase(ci int, r *rand.Rand, size [3]int, i int) {
 		if hi[0] < lo[0] {
 			hi[0] = lo[0]
 		}
+		if i%10 < 5 && hi[0]%8 == 7 {
+			hi[0] -= 3 // maxx strictly inside an 8-voxel sub-block
+			if hi[0] < lo[0] {
+				lo[0] = hi[0]
+			}
+		}
 		clip = &lg.Clip{Min: lo, Max: hi}
 	}
 	nfg := 0
@@ -310,11 +321,11 @@ func streamCase(ci int, r *rand.Rand, size [3]int, i int) {
 	p.Seen("stream_variants", variant)
 	p.Count("streams", 1)
 	p.Count("stream_blocks", len(pbs))
-	wit := map[string]interface{}{"case": ci, "type": "stream", "size": size, "variant": variant, "desc": desc, "labels": lbls, "seed": p.Seed}
+	wit := map[string]interface{}{"type": "stream", "size": size, "variant": variant, "desc": desc, "labels": lbls}
 	if clip != nil {
 		wit["clip"] = clip
 	}
-	if ci%40 == 0 {
+	if i == 0 {
 		p.Sample(map[string]interface{}{"type": "stream", "desc": desc, "labels": len(lbls), "foreground_voxels": nfg})
 	}
 	suffix := variant
@@ -328,7 +339,11 @@ func streamCase(ci int, r *rand.Rand, size [3]int, i int) {
 		suffix = "multiblock"
 	}
 	for _, f := range lg.CheckRLEs(size, pbs, lbls, clip) {
-		violation("rle:"+suffix, f.What+" | "+desc, wit)
+		key := "rle:" + suffix
+		if f.Tag != "" {
+			key += ":" + f.Tag
+		}
+		violation(key, f.What+" | "+desc, wit)
 	}
 	if clip == nil {
 		for _, f := range lg.CheckBinaryBlocks(size, pbs, lbls) {
@@ -338,7 +353,9 @@ func streamCase(ci int, r *rand.Rand, size [3]int, i int) {
 }
 
 // subvolCase: SubvolumeToBlock at every block index of a block-aligned subvolume.
-func subvolCase(ci int, r *rand.Rand, size [3]int) {
+func subvolCase(c *lg.Case, size [3]int) {
+	ci, r := c.CI, c.R
+	violation := c.Violation
 	m := [3]int{1 + r.Intn(3), 1 + r.Intn(3), 1 + r.Intn(3)}
 	for m[0]*m[1]*m[2]*size[0]*size[1]*size[2] > 1<<21 {
 		m[r.Intn(3)] = 1
@@ -348,7 +365,7 @@ func subvolCase(ci int, r *rand.Rand, size [3]int) {
 	vol := make([]uint64, vs[0]*vs[1]*vs[2])
 	kinds := lg.Kinds()
 	desc := fmt.Sprintf("case=%d subvol block=%s blocks=%dx%dx%d first_block=(%d,%d,%d)", ci, lg.SizeStr(size), m[0], m[1], m[2], b0[0], b0[1], b0[2])
-	p.Begin(desc)
+	c.Begin(desc)
 	exp := map[[3]int][]uint64{}
 	var order [][3]int
 	for bz := 0; bz < m[2]; bz++ {
@@ -377,7 +394,7 @@ func subvolCase(ci int, r *rand.Rand, size [3]int) {
 		_, nl := lg.Stats(size, want)
 		p.Case(key, nl >= 2)
 		p.Count("subvolume_blocks", 1)
-		wit := map[string]interface{}{"case": ci, "type": "subvol", "size": size, "blocks": m, "first_block": b0, "block_pos": pos, "seed": p.Seed}
+		wit := map[string]interface{}{"type": "subvol", "size": size, "blocks": m, "first_block": b0, "block_pos": pos}
 		var b *labels.Block
 		var err error
 		if pn := lg.Try(func() { b, err = labels.SubvolumeToBlock(sv, raw, idx, lg.P3(size)) }); pn != "" {
@@ -396,7 +413,7 @@ func subvolCase(ci int, r *rand.Rand, size [3]int) {
 			violation("subvolume:"+f.View, fmt.Sprintf("SubvolumeToBlock at block %v of the subvolume: %s | %s", pos, f.What, desc), wit)
 		}
 	}
-	if ci%8 == 0 {
+	if size == lg.AllSizes()[int(p.Seed%1000)%64] {
 		p.Sample(map[string]interface{}{"type": "subvol", "desc": desc})
 	}
 	p.Seen("subvolume_shapes", fmt.Sprint(m))
